@@ -2,7 +2,8 @@ package quic_test
 
 // C17: every way a connection ends unblocks callers, informs the peer, frees resources.
 // E2: close cause x set of concurrently blocked client API calls x timing of the cause x
-// idle/keep-alive configuration x fault on the closing exchange x history of the connection
+// idle/keep-alive configuration (client and server MaxIdleTimeout independently, keep-alive periods
+// on either side below and above half of the negotiated idle timeout) x fault on the closing exchange x history of the connection
 // (fresh Dial, resumed with 0-RTT accepted, resumed with 0-RTT rejected and continued with
 // NextConnection) x client kind (Transport, quic.Dial, browser specs: with and without source
 // connection IDs) x, for stateless resets, sender and size of the reset (the in-tree server's 42
@@ -49,15 +50,59 @@ var c17Calls = []string{"Read", "Write", "AcceptStream", "AcceptUniStream", "Ope
 // connection normally from then on
 var c17Hists = []string{"", "0rtt-accepted", "0rtt-rejected"}
 
-var c17Timings = []struct {
-	Name string
-	Idle time.Duration // MaxIdleTimeout on both sides
-	KA   time.Duration // client KeepAlivePeriod
-}{
-	{"idle2s", 2 * time.Second, 0},
-	{"idle2s-ka0.5s", 2 * time.Second, 500 * time.Millisecond},
-	{"idle30s-ka10s", 30 * time.Second, 10 * time.Second},
+// (client MaxIdleTimeout, server MaxIdleTimeout, client KeepAlivePeriod, server KeepAlivePeriod).
+// RFC 9000 10.1: the idle period in force at an endpoint is the smaller of the two advertised
+// values, so the two Config values are independent dimensions; Config.KeepAlivePeriod is documented
+// as "sent on that period (or at most every half of MaxIdleTimeout, whichever is smaller)", so
+// periods above half of the idle period are legitimate inputs. The first three entries are the
+// symmetric ones the plan lists (their indices are kept: stored replays name them); the others put
+// the smaller idle timeout on either side, a keep-alive period above half of it on either side.
+var c17Timings = []c17Timing{
+	{"idle2s", 2 * time.Second, 2 * time.Second, 0, 0},
+	{"idle2s-ka0.5s", 2 * time.Second, 2 * time.Second, 500 * time.Millisecond, 0},
+	{"idle30s-ka10s", 30 * time.Second, 30 * time.Second, 10 * time.Second, 0},
+	// keep-alive period above half of a symmetric idle timeout (and above the timeout itself)
+	{"idle6s-ka10s", 6 * time.Second, 6 * time.Second, 10 * time.Second, 0},
+	// the keep-alive side advertises the smaller / the larger idle timeout, period above half of the smaller
+	{"c5s-s30s-ka10s", 5 * time.Second, 30 * time.Second, 10 * time.Second, 0},
+	{"c30s-s5s-ka10s", 30 * time.Second, 5 * time.Second, 10 * time.Second, 0},
+	{"c2s-s30s-ka10s", 2 * time.Second, 30 * time.Second, 10 * time.Second, 0},
+	// both values close together, the period between half of the smaller and half of the larger
+	{"c6s-s8s-ka4s", 6 * time.Second, 8 * time.Second, 4 * time.Second, 0},
+	{"c8s-s6s-ka4s", 8 * time.Second, 6 * time.Second, 4 * time.Second, 0},
+	// the server is the side that keeps the connection alive
+	{"c5s-s30s-ska10s", 5 * time.Second, 30 * time.Second, 0, 10 * time.Second},
+	{"c30s-s5s-ska10s", 30 * time.Second, 5 * time.Second, 0, 10 * time.Second},
+	// asymmetric idle timeouts without keep-alives (the idle timeout window itself)
+	{"c5s-s30s", 5 * time.Second, 30 * time.Second, 0, 0},
+	{"c30s-s5s", 30 * time.Second, 5 * time.Second, 0, 0},
 }
+
+type c17Timing struct {
+	Name  string
+	CIdle time.Duration // client Config.MaxIdleTimeout
+	SIdle time.Duration // server Config.MaxIdleTimeout
+	KA    time.Duration // client Config.KeepAlivePeriod
+	SKA   time.Duration // server Config.KeepAlivePeriod
+}
+
+// c17MinRemoteIdle: the implementation deliberately reads a peer's max_idle_timeout below
+// protocol.MinRemoteIdleTimeout as 5 s (DESIGN.md, "the negotiated period").
+const c17MinRemoteIdle = 5 * time.Second
+
+// periods returns the idle period in force at the client and at the server: the smaller of the
+// endpoint's own value and the peer's advertised one (read as at least 5 s). A spec-driven client
+// advertises and enforces the 30 s of its fingerprint, whatever its Config says.
+func (tm c17Timing) periods(kind string) (effC, effS time.Duration) {
+	advC := tm.CIdle
+	if kind == "chrome115" || kind == "firefox116" {
+		advC = 30 * time.Second
+	}
+	return min(advC, max(tm.SIdle, c17MinRemoteIdle)), min(tm.SIdle, max(advC, c17MinRemoteIdle))
+}
+
+// symmetric: one of the plan's configurations with the same MaxIdleTimeout on both sides
+func (tm c17Timing) symmetric() bool { return tm.CIdle == tm.SIdle }
 
 type c17Config struct {
 	Cause  int          `json:"cause"`
@@ -129,9 +174,17 @@ func c17Run(t *testing.T, cfg c17Config) c17Result {
 		defer cancel()
 		var resetKey quic.StatelessResetKey
 		copy(resetKey[:], "0123456789abcdef0123456789abcdef")
-		sconf := &quic.Config{MaxIdleTimeout: tm.Idle, EnableDatagrams: true, MaxIncomingStreams: 2, MaxIncomingUniStreams: 2,
+		effC, effS := tm.periods(cfg.Kind)
+		// window bounds that were written for one value on both sides keep using it there
+		idleLo, idleHi := effC, effC
+		if tm.symmetric() {
+			idleLo, idleHi = tm.CIdle, tm.CIdle
+		}
+		maxIdle := max(tm.CIdle, tm.SIdle, effC, effS)
+		writeEvery := min(tm.CIdle, tm.SIdle) / 4 // idle-timeout-sending: the application's write period
+		sconf := &quic.Config{MaxIdleTimeout: tm.SIdle, KeepAlivePeriod: tm.SKA, EnableDatagrams: true, MaxIncomingStreams: 2, MaxIncomingUniStreams: 2,
 			InitialStreamReceiveWindow: 2048, MaxStreamReceiveWindow: 2048, InitialConnectionReceiveWindow: 4096, MaxConnectionReceiveWindow: 4096}
-		cconf := &quic.Config{MaxIdleTimeout: tm.Idle, KeepAlivePeriod: tm.KA, EnableDatagrams: true}
+		cconf := &quic.Config{MaxIdleTimeout: tm.CIdle, KeepAlivePeriod: tm.KA, EnableDatagrams: true}
 		sconf.Allow0RTT = cfg.Hist != ""
 		stls := w.ServerTLS(false)
 		ln, err := w.ListenWith(stls, sconf, func(tr *quic.Transport) { tr.StatelessResetKey = &resetKey })
@@ -540,12 +593,21 @@ func c17Run(t *testing.T, cfg c17Config) c17Result {
 			d.Close()
 		case "idle-timeout", "keepalive-then-blackhole", "idle-timeout-sending":
 			if cause == "keepalive-then-blackhole" {
-				// an answered keep-alive must keep the connection alive for many idle periods
-				time.Sleep(5 * tm.Idle)
-				if tm.KA > 0 && conn.Context().Err() != nil {
-					fail("died-while-keepalives-answered", "the connection ended with %v although keep-alive PINGs (every %v) were being acknowledged", context.Cause(conn.Context()), tm.KA)
+				// an answered keep-alive must keep the connection alive for many idle periods, at the
+				// endpoint that sends the PINGs and at the one that answers them: every datagram is
+				// delivered, so neither may run into its idle timeout
+				time.Sleep(5 * max(effC, effS))
+				ka, who := max(tm.KA, tm.SKA), "client"
+				if tm.KA == 0 {
+					who = "server"
 				}
-				if tm.KA == 0 && conn.Context().Err() == nil {
+				if ka > 0 && conn.Context().Err() != nil {
+					fail("died-while-keepalives-answered", "the client's connection ended with %v although keep-alives were enabled at the %s (KeepAlivePeriod %v; MaxIdleTimeout client %v, server %v: idle period in force %v at the client, %v at the server) and every datagram was delivered", context.Cause(conn.Context()), who, ka, tm.CIdle, tm.SIdle, effC, effS)
+				}
+				if ka > 0 && sconn.Context().Err() != nil {
+					fail("server-died-while-keepalives-answered", "the server's connection ended with %v although keep-alives were enabled at the %s (KeepAlivePeriod %v; MaxIdleTimeout client %v, server %v: idle period in force %v at the client, %v at the server) and every datagram was delivered", context.Cause(sconn.Context()), who, ka, tm.CIdle, tm.SIdle, effC, effS)
+				}
+				if ka == 0 && conn.Context().Err() == nil {
 					fail("no-idle-timeout", "no keep-alive configured, 5 idle periods of silence, and the connection is still open")
 				}
 				noteLastRecv()
@@ -556,13 +618,14 @@ func c17Run(t *testing.T, cfg c17Config) c17Result {
 			w.Router.SetBlackhole(sim.C2S, true)
 			w.Router.SetBlackhole(sim.S2C, true)
 			if cause == "idle-timeout-sending" {
+				// (every quarter of the smaller of the two configured idle timeouts)
 				// the application keeps producing ack-eliciting packets towards the dead peer: only
 				// the first one after the last packet received may restart the idle period
 				wg.Add(1)
 				go func() {
 					defer wg.Done()
 					for i := 0; i < 16; i++ {
-						time.Sleep(tm.Idle / 4)
+						time.Sleep(writeEvery)
 						if _, err := held[0].Write([]byte{byte(i)}); err != nil {
 							return
 						}
@@ -652,7 +715,7 @@ func c17Run(t *testing.T, cfg c17Config) c17Result {
 			go held[0].Write([]byte("ping after restart"))
 		}
 		// wait for the connection to end (bounded)
-		bound := 3*tm.Idle + 35*time.Second
+		bound := 3*maxIdle + 35*time.Second
 		select {
 		case <-conn.Context().Done():
 		case <-time.After(bound):
@@ -712,26 +775,24 @@ func c17Run(t *testing.T, cfg c17Config) c17Result {
 			if !errors.As(recorded, &ite) {
 				fail("wrong-cause", "recorded cause %v, want an idle timeout", recorded)
 			}
-			if lastRecv >= 0 && tEnd < lastRecv+tm.Idle {
-				fail("idle-timeout-early", "idle timeout fired at %v, only %v after the last packet was received at %v (negotiated idle timeout %v)", tEnd, tEnd-lastRecv, lastRecv, tm.Idle)
+			if lastRecv >= 0 && tEnd < lastRecv+idleLo {
+				fail("idle-timeout-early", "idle timeout fired at %v, only %v after the last packet was received at %v (MaxIdleTimeout client %v, server %v: negotiated idle timeout at least %v)", tEnd, tEnd-lastRecv, lastRecv, tm.CIdle, tm.SIdle, idleLo)
 			}
-			if tEnd > tCause+tm.Idle+max(tm.Idle, 3*time.Second)+time.Second {
-				fail("idle-timeout-late", "idle timeout fired %v after the path died (negotiated idle timeout %v)", tEnd-tCause, tm.Idle)
+			if tEnd > tCause+idleHi+max(idleHi, 3*time.Second)+time.Second {
+				fail("idle-timeout-late", "idle timeout fired %v after the path died (MaxIdleTimeout client %v, server %v: negotiated idle timeout %v)", tEnd-tCause, tm.CIdle, tm.SIdle, effC)
 			}
 			// the period in force at the client: the smaller of the two advertised values, where the
 			// implementation deliberately reads a peer value below protocol.MinRemoteIdleTimeout (5 s) as 5 s
-			eff := tm.Idle
-			if cfg.Kind == "chrome115" {
-				eff = min(30*time.Second, max(tm.Idle, 5*time.Second)) // Chrome advertises 30 s
-			}
-			if cause == "idle-timeout-sending" && tm.KA == 0 && tEnd > tCause+tm.Idle/4+eff+eff/4 {
+			// (a spec-driven client advertises the 30 s of its fingerprint)
+			eff := effC
+			if cause == "idle-timeout-sending" && tm.KA == 0 && tEnd > tCause+writeEvery+eff+eff/4 {
 				var sent []string
 				for _, e := range w.Router.Log() {
 					if e.Dir == sim.C2S && e.T >= tCause {
 						sent = append(sent, fmt.Sprintf("%v/%dB", e.T, len(e.Data)))
 					}
 				}
-				fail("idle-timeout-postponed-by-sending", "the peer went silent at %v, the application kept writing 1 byte every %v: the idle timeout (period in force %v) fired only at %v, more than a quarter period after (first packet sent after the last one received) + idle timeout = %v; last packet received at %v; datagrams sent into the dead path: %v", tCause, tm.Idle/4, eff, tEnd, tCause+tm.Idle/4+eff, lastRecv, sent)
+				fail("idle-timeout-postponed-by-sending", "the peer went silent at %v, the application kept writing 1 byte every %v: the idle timeout (period in force %v) fired only at %v, more than a quarter period after (first packet sent after the last one received) + idle timeout = %v; last packet received at %v; datagrams sent into the dead path: %v", tCause, writeEvery, eff, tEnd, tCause+writeEvery+eff, lastRecv, sent)
 			}
 		case "fatal-transport-error":
 			if got := sim.ErrClass(recorded); got != "STREAM_STATE_ERROR(local)" {
@@ -819,7 +880,7 @@ func c17Run(t *testing.T, cfg c17Config) c17Result {
 		if sconn != nil {
 			sconn.CloseWithError(0, "")
 		}
-		time.Sleep(3*tm.Idle + 40*time.Second)
+		time.Sleep(3*maxIdle + 40*time.Second)
 		if tr := c17Transport(d); tr != nil && cause != "transport-close" {
 			if n := quic.VerifHandlerCount(tr); n != 0 {
 				fail("routing-not-released", "%d client routing entries remain after the closing period", n)
@@ -915,6 +976,14 @@ func c17ResetSizes(thorough bool) []int {
 	return append(out, 64, 100, 300, 1200, 1500)
 }
 
+func c17TimingNames() []string {
+	var out []string
+	for _, tm := range c17Timings {
+		out = append(out, fmt.Sprintf("%s(%v,%v,%v,%v)", tm.Name, tm.CIdle, tm.SIdle, tm.KA, tm.SKA))
+	}
+	return out
+}
+
 func c17Subsets(n, maxSize int) [][]int {
 	out := [][]int{{}}
 	var rec func(start int, cur []int)
@@ -969,8 +1038,12 @@ func c17Configs(e explore.Env) ([]c17Config, string) {
 					}
 				}
 			case "keepalive-then-blackhole":
+				// every (client idle, server idle, keep-alive) configuration; the spec-driven client
+				// advertises its fingerprint's 30 s, which makes the server's value the smaller one
 				for ti := range c17Timings {
-					cfgs = append(cfgs, c17Config{Cause: ci, Calls: []int{0, 2}, When: 1, Timing: ti, Kind: "plain", Seed: seed})
+					for _, k := range []string{"plain", "chrome115"} {
+						cfgs = append(cfgs, c17Config{Cause: ci, Calls: []int{0, 2}, When: 1, Timing: ti, Kind: k, Seed: seed})
+					}
 				}
 			default:
 				for _, set := range sets {
@@ -1027,7 +1100,7 @@ func c17Configs(e explore.Env) ([]c17Config, string) {
 				}
 			}
 		}
-		return cfgs, fmt.Sprintf("close causes {local close, remote close, idle timeout, Transport.Close, stateless reset, fatal transport error (an authentic 1-RTT packet with STREAM data on a send-only stream)} x every set of <= %d concurrently blocked client calls out of %v x 3 positions (right after the handshake, 300 ms later, during a server-to-client transfer) + timing configurations + spec-driven client (Chrome 115) + the quic.Dial client (zero-length source connection IDs) and the Firefox 116 spec (3 byte IDs) x 3 positions + 1 fault on the closing exchange + stateless resets sent by another RFC 9000 endpoint with the same static key (played by the harness: answers a datagram of L bytes with a reset of min(N, L-1) >= 21 bytes), N in %v x client kind {Transport, quic.Dial, Chrome 115 spec, Firefox 116 spec} x %d sets of blocked calls x 3 positions + connection histories {resumed with DialEarly and 0-RTT accepted (streams opened and written before the handshake completes), 0-RTT rejected and the application went on with NextConnection} x every set of <= %d blocked calls and 3 sets of 3 x 3 positions; handshake timeout (silent peer) and dial cancellation at each of the first 8 datagrams; Transport.Close while Dial is in flight (from inside the Tracer callback, after the first datagram, 20 ms later); keep-alive answered for 5 idle periods then path death; path death while the application keeps writing every quarter idle period (3 timing configurations x plain/spec-driven x 2 call sets)", maxSet, c17Calls, c17ResetSizes(e.Thorough()), map[bool]int{false: 4, true: 14}[e.Thorough()], histSet)
+		return cfgs, fmt.Sprintf("close causes {local close, remote close, idle timeout, Transport.Close, stateless reset, fatal transport error (an authentic 1-RTT packet with STREAM data on a send-only stream)} x every set of <= %d concurrently blocked client calls out of %v x 3 positions (right after the handshake, 300 ms later, during a server-to-client transfer) + timing configurations + spec-driven client (Chrome 115) + the quic.Dial client (zero-length source connection IDs) and the Firefox 116 spec (3 byte IDs) x 3 positions + 1 fault on the closing exchange + stateless resets sent by another RFC 9000 endpoint with the same static key (played by the harness: answers a datagram of L bytes with a reset of min(N, L-1) >= 21 bytes), N in %v x client kind {Transport, quic.Dial, Chrome 115 spec, Firefox 116 spec} x %d sets of blocked calls x 3 positions + connection histories {resumed with DialEarly and 0-RTT accepted (streams opened and written before the handshake completes), 0-RTT rejected and the application went on with NextConnection} x every set of <= %d blocked calls and 3 sets of 3 x 3 positions; handshake timeout (silent peer) and dial cancellation at each of the first 8 datagrams; Transport.Close while Dial is in flight (from inside the Tracer callback, after the first datagram, 20 ms later); keep-alive answered for 5 idle periods (neither endpoint may time out) then path death, and path death while the application keeps writing every quarter idle period, each for every (client MaxIdleTimeout, server MaxIdleTimeout, client KeepAlivePeriod, server KeepAlivePeriod) of %v x plain/spec-driven client", maxSet, c17Calls, c17ResetSizes(e.Thorough()), map[bool]int{false: 4, true: 14}[e.Thorough()], histSet, c17TimingNames())
 	}
 }
 
